@@ -462,5 +462,229 @@ theorem ctorMoveA_spec (c : Cfg) (hok : c.OK) (i j : Nat) (a : AllocId) (s : St)
   right
   simpa [Op.affectedA] using haff
 
+/-! ### destructor, clear, reshape, swap, move assignment -/
+
+theorem eqv_symm {c : Cfg} {a b : AllocId} (h : c.eqv a b = true) : c.eqv b a = true := by
+  unfold Cfg.eqv at *
+  cases hi : c.iae with
+  | true => simp
+  | false =>
+    rw [hi] at h
+    simp only [Bool.false_or, beq_iff_eq] at h ⊢
+    exact h.symm
+
+theorem dtor_spec (c : Cfg) (hok : c.OK) (i : Nat) (s : St) (hG : Good c s)
+    (happ : (Op.dtor i).applicable c s = true) : OpSpec c (.dtor i) s := by
+  obtain ⟨x, hx⟩ := alive_iff.mp happ
+  have hi := getArr_eq hx
+  unfold OpSpec
+  show Out (opDtor c i s) _ _ _
+  unfold opDtor
+  rw [get_bind]
+  simp only [hx]
+  apply Out.mono (dtorArr_out c hok.wf i x s hG.1 hi) _ (fun _ h => h) id
+  intro _ s' ⟨h1, h2, h3, h4⟩
+  refine ⟨⟨h1, ?_⟩, h2, by rw [h3, List.length_set], fun _ => h4, trivial⟩
+  rw [h3]; exact hG.2.set (fun y hy => by cases hy)
+
+theorem clear_spec (c : Cfg) (hok : c.OK) (i : Nat) (s : St) (hG : Good c s)
+    (happ : (Op.clear i).applicable c s = true) : OpSpec c (.clear i) s := by
+  obtain ⟨x, hx⟩ := alive_iff.mp happ
+  have hi := getArr_eq hx
+  have hlt : i < s.arrs.length := (List.getElem?_eq_some_iff.mp hi).1
+  unfold OpSpec
+  show Out (opClear c i s) _ _ _
+  unfold opClear
+  rw [get_bind]
+  simp only [hx]
+  refine Out.noexcept' (Q := fun _ => False) (T := False) ?_ (fun _ h => False.elim h) (fun h => False.elim h)
+  apply Out.bind (clearArr_out (T := False) c hok.wf i x s hG.1 hi) _ (fun _ h => h)
+  intro x' s' ⟨hx', h1, h2, h3, h4⟩
+  apply Out.pure'
+  refine ⟨⟨h1, ?_⟩, h2, by rw [h3, List.length_set], fun _ => h4, ?_⟩
+  · rw [h3]; exact hG.2.set (fun y hy => by cases hy; rw [hx']; show 0 = nElems (emptyExts c.dim); rw [nElems_emptyExts hok.dim])
+  · show allocOf s' i = allocOf s i
+    rw [allocOf_set_self h3 hlt, allocOf_eq hx, hx']
+
+theorem reshape_spec (c : Cfg) (hok : c.OK) (i : Nat) (es : List Ext) (s : St) (hG : Good c s)
+    (happ : (Op.reshape i es).applicable c s = true) : OpSpec c (.reshape i es) s := by
+  simp only [Op.applicable] at happ
+  cases hx : getArr s i with
+  | none => rw [hx] at happ; cases happ
+  | some x =>
+    rw [hx] at happ
+    have hn : nElems es = x.n := by simpa using happ
+    have hi := getArr_eq hx
+    have hlt : i < s.arrs.length := (List.getElem?_eq_some_iff.mp hi).1
+    unfold OpSpec
+    show Out (opReshape i es s) _ _ _
+    unfold opReshape
+    rw [get_bind]
+    simp only [hx, hn, if_true]
+    apply Out.mono (setSlot_out i _ s) _ (fun _ h => h) id
+    intro _ s1 h1
+    refine ⟨⟨?_, ?_⟩, h1.fuel, by rw [h1.arrs, List.length_set], ?_, ?_⟩
+    · show Inv c s1.blocks s1.arrs
+      rw [h1.blocks, h1.arrs]
+      exact Inv.relabel hG.1 hi rfl rfl
+    · rw [h1.arrs]
+      exact hG.2.set (fun y hy => by cases hy; show x.n = nElems (reported es); rw [nElems_reported, hn])
+    · intro _ hA
+      show InvA c s1.blocks s1.arrs
+      rw [h1.blocks, h1.arrs]
+      exact InvA.relabel hA hi rfl rfl (fun b blk hn' hb hB hf => hA.ownerEq i x b blk hi hn' hb hB hf)
+    · show allocOf s1 i = allocOf s i
+      rw [allocOf_set_self h1.arrs hlt, allocOf_eq hx]
+
+theorem swap_spec (c : Cfg) (hok : c.OK) (i j : Nat) (s : St) (hG : Good c s)
+    (happ : (Op.swap i j).applicable c s = true) : OpSpec c (.swap i j) s := by
+  simp only [Op.applicable] at happ
+  cases hx : getArr s i with
+  | none => rw [hx] at happ; cases happ
+  | some x =>
+    cases hy : getArr s j with
+    | none => rw [hx, hy] at happ; cases happ
+    | some y =>
+      rw [hx, hy] at happ
+      have hi := getArr_eq hx
+      have hj := getArr_eq hy
+      have hlti : i < s.arrs.length := (List.getElem?_eq_some_iff.mp hi).1
+      have hltj : j < s.arrs.length := (List.getElem?_eq_some_iff.mp hj).1
+      unfold OpSpec
+      show Out (opSwap c i j s) _ _ _
+      unfold opSwap
+      rw [get_bind]
+      simp only [hx, hy]
+      by_cases hij : i = j
+      · subst hij
+        simp only [if_true]
+        apply Out.pure'
+        have : x = y := by rw [hx] at hy; exact Option.some.inj hy
+        subst this
+        refine ⟨hG, NF.refl s, rfl, fun _ h => h, ?_⟩
+        show allocOf s i = _ ∧ allocOf s i = _
+        constructor <;> (cases c.pocs <;> rfl)
+      · simp only [hij, if_false]
+        apply Out.bind (setSlot_out i _ s) _ (fun _ h => h)
+        intro _ s1 h1
+        apply Out.mono (setSlot_out j _ s1) _ (fun _ h => h) id
+        intro _ s2 h2
+        have harrs : s2.arrs = (s.arrs.set i (some ⟨if c.pocs then y.alloc else x.alloc, y.base, y.ext, y.n⟩)).set j
+            (some ⟨if c.pocs then x.alloc else y.alloc, x.base, x.ext, x.n⟩) := by rw [h2.arrs, h1.arrs]
+        refine ⟨⟨?_, ?_⟩, fun h => h2.fuel (h1.fuel h), by rw [harrs]; simp, ?_, ?_, ?_⟩
+        · show Inv c s2.blocks s2.arrs
+          rw [h2.blocks, h1.blocks, harrs]
+          exact Inv.exchange hG.1 hij hi hj rfl rfl rfl rfl
+        · rw [harrs]
+          apply Wn.set (Wn.set hG.2 _) _
+          · intro z hz; cases hz; exact hG.2 j y hj
+          · intro z hz; cases hz; exact hG.2 i x hi
+        · intro _ hA
+          show InvA c s2.blocks s2.arrs
+          rw [h2.blocks, h1.blocks, harrs]
+          have hcase : c.pocs = true ∨ c.eqv x.alloc y.alloc = true := by
+            simpa [Bool.or_eq_true] using happ
+          refine InvA.exchange (x' := ⟨if c.pocs then y.alloc else x.alloc, y.base, y.ext, y.n⟩)
+            (y' := ⟨if c.pocs then x.alloc else y.alloc, x.base, x.ext, x.n⟩) hA hij hi hj rfl rfl rfl rfl ?_ ?_
+          · intro b blk hn hb hB hf
+            have h0 := hA.ownerEq j y b blk hj hn hb hB hf
+            show c.eqv blk.alloc (if c.pocs then y.alloc else x.alloc) = true
+            rcases hcase with hp | he
+            · simp [hp, h0]
+            · cases hp : c.pocs with
+              | true => simp [h0]
+              | false => simp; exact eqv_trans h0 (eqv_symm he)
+          · intro b blk hn hb hB hf
+            have h0 := hA.ownerEq i x b blk hi hn hb hB hf
+            show c.eqv blk.alloc (if c.pocs then x.alloc else y.alloc) = true
+            rcases hcase with hp | he
+            · simp [hp, h0]
+            · cases hp : c.pocs with
+              | true => simp [h0]
+              | false => simp; exact eqv_trans h0 he
+        · show allocOf s2 i = _
+          unfold allocOf
+          rw [getArr_of_arrs (o := some ⟨if c.pocs then y.alloc else x.alloc, y.base, y.ext, y.n⟩)]
+          · rw [hx, hy]; cases c.pocs <;> rfl
+          · rw [harrs, List.getElem?_set_ne (Ne.symm hij)]; exact List.getElem?_set_self hlti
+        · show allocOf s2 j = _
+          unfold allocOf
+          rw [getArr_of_arrs (o := some ⟨if c.pocs then x.alloc else y.alloc, x.base, x.ext, x.n⟩)]
+          · rw [hx, hy]; cases c.pocs <;> rfl
+          · rw [harrs]; exact List.getElem?_set_self (by simp; exact hltj)
+
+/-- `clear(); base_ = p; if(POCMA) alloc = srcAlloc; layout = …` onto a slot, from a heap in which block `p` belongs to slot `j` -/
+theorem assignMove_spec (c : Cfg) (hok : c.OK) (i j : Nat) (s : St) (hG : Good c s)
+    (happ : (Op.assignMove i j).applicable c s = true) : OpSpec c (.assignMove i j) s := by
+  simp only [Op.applicable, Bool.and_eq_true] at happ
+  obtain ⟨x, hx⟩ := alive_iff.mp happ.1
+  obtain ⟨y, hy⟩ := alive_iff.mp happ.2
+  have hi := getArr_eq hx
+  have hj := getArr_eq hy
+  have hlti : i < s.arrs.length := (List.getElem?_eq_some_iff.mp hi).1
+  unfold OpSpec
+  show Out (opAssignMove c i j s) _ _ _
+  unfold opAssignMove
+  rw [get_bind]
+  simp only [hx, hy]
+  by_cases hij : i = j
+  · subst hij
+    simp only [if_true]
+    apply Out.pure'
+    refine ⟨hG, NF.refl s, rfl, fun _ h => h, ?_⟩
+    show allocOf s i = if c.pocma then allocOf s i else allocOf s i
+    cases c.pocma <;> rfl
+  · simp only [hij, if_false]
+    refine Out.noexcept' (Q := fun _ => False) (T := False) ?_ (fun _ h => False.elim h) (fun h => False.elim h)
+    unfold moveAssignFrom
+    show Out (((clearArr c i x >>= fun x' => setSlot i (some { x' with base := y.base, alloc := if c.pocma then y.alloc else x'.alloc, ext := y.ext, n := y.n }))
+      >>= fun _ => setSlot j (some { y with ext := emptyExts c.dim, n := 0 })) s) _ _ _
+    apply Out.bind (P := fun _ s2 => ∃ s1 x', x' = { x with ext := emptyExts c.dim, n := 0 } ∧ InvS c s1 ∧ NF s s1 ∧
+        s1.arrs = s.arrs.set i (some x') ∧ (InvAS c s → InvAS c s1) ∧
+        Fr s1 s2 s1.blocks (s1.arrs.set i (some { x' with base := y.base, alloc := if c.pocma then y.alloc else x'.alloc, ext := y.ext, n := y.n })))
+      (Q := fun _ => False) _ _ (fun _ h => h.elim)
+    · apply Out.bind (clearArr_out (T := False) c hok.wf i x s hG.1 hi) _ (fun _ h => h)
+      intro x' s1 ⟨hx', h1, h2, h3, h4⟩
+      apply Out.mono (setSlot_out i _ s1) _ (fun _ h => h) id
+      intro _ s2 h5
+      exact ⟨s1, x', hx', h1, h2, h3, h4, h5⟩
+    · intro _ s2 ⟨s1, x', hx', h1, h2, h3, h4, h5⟩
+      apply Out.mono (setSlot_out j _ s2) _ (fun _ h => h) id
+      intro _ s3 h6
+      have hi1 : s1.arrs[i]? = some (some x') := by rw [h3]; exact List.getElem?_set_self hlti
+      have hj1 : s1.arrs[j]? = some (some y) := by rw [h3, List.getElem?_set_ne hij]; exact hj
+      have harrs : s3.arrs = (s1.arrs.set i (some { x' with base := y.base, alloc := if c.pocma then y.alloc else x'.alloc, ext := y.ext, n := y.n })).set j
+          (some { y with ext := emptyExts c.dim, n := 0 }) := by rw [h6.arrs, h5.arrs]
+      have hW1 : Wn s1.arrs := by
+        rw [h3]; exact hG.2.set (fun z hz => by cases hz; rw [hx']; show 0 = nElems (emptyExts c.dim); rw [nElems_emptyExts hok.dim])
+      refine ⟨⟨?_, ?_⟩, fun h => h6.fuel (h5.fuel (h2 h)), by rw [harrs, h3]; simp, ?_, ?_⟩
+      · show Inv c s3.blocks s3.arrs
+        rw [h6.blocks, h5.blocks, harrs]
+        exact Inv.transfer h1 hij hi1 (fun b => ownsB_empty b (by rw [hx'])) hj1 rfl rfl rfl
+      · rw [harrs]
+        apply Wn.set (Wn.set hW1 _) _
+        · intro z hz; cases hz; exact hG.2 j y hj
+        · intro z hz; cases hz; show 0 = nElems (emptyExts c.dim); rw [nElems_emptyExts hok.dim]
+      · intro haff hA
+        show InvA c s3.blocks s3.arrs
+        rw [h6.blocks, h5.blocks, harrs]
+        have hcase : c.pocma = true ∨ c.iae = true := by
+          simp only [Op.affectedA, Bool.not_eq_false', Bool.or_eq_true] at haff
+          exact haff
+        rcases hcase with hp | hiae
+        · refine InvA.transfer (x' := { x' with base := y.base, alloc := if c.pocma then y.alloc else x'.alloc, ext := y.ext, n := y.n })
+            (y' := { y with ext := emptyExts c.dim, n := 0 }) (h4 hA) hij hj1 rfl rfl rfl ?_
+          intro b blk hn hb hB hf
+          show c.eqv blk.alloc (if c.pocma then y.alloc else x'.alloc) = true
+          rw [hp]
+          exact (h4 hA).ownerEq j y b blk hj1 hn hb hB hf
+        · exact InvA.of_iae hiae _ _
+      · show allocOf s3 i = if c.pocma then allocOf s j else allocOf s i
+        unfold allocOf
+        rw [getArr_of_arrs (o := some { x' with base := y.base, alloc := if c.pocma then y.alloc else x'.alloc, ext := y.ext, n := y.n })]
+        · rw [hx, hy, hx']; cases c.pocma <;> rfl
+        · rw [harrs, List.getElem?_set_ne (Ne.symm hij)]
+          exact List.getElem?_set_self (by rw [h3]; simp; exact hlti)
+
 end Ledger
 end Multi
